@@ -50,9 +50,10 @@ VARIABLES pc,        \* g -> [op, p, i]   op = "idle" between operations; path p
           lost,      \* an append stored over a value newer than the one it had loaded
           badunlock, \* Unlock/RUnlock of a mutex not held that way (Go: fatal error)
           resets,    \* some "nil"/"other" store happened
-          appended   \* set of <<v, id>> whose append store was executed
+          appended,  \* set of <<v, id>> whose append store was executed
+          early      \* some operation entered the user's function ("forward") while its own append was still ahead
 
-vars == <<pc, left, mem, snap, lock, cand, accessed, lost, badunlock, resets, appended>>
+vars == <<pc, left, mem, snap, lock, cand, accessed, lost, badunlock, resets, appended, early>>
 
 Init == /\ pc = [g \in Gs |-> [op |-> "idle", p |-> 0, i |-> 0]]
         /\ left = [g \in Gs |-> K]
@@ -63,6 +64,7 @@ Init == /\ pc = [g \in Gs |-> [op |-> "idle", p |-> 0, i |-> 0]]
         /\ accessed = [v \in Vars |-> FALSE]
         /\ lost = FALSE /\ badunlock = FALSE /\ resets = FALSE
         /\ appended = {}
+        /\ early = FALSE
 
 OpId(g) == <<g, K - left[g]>>          \* identity of g's running operation (= the argument tuple of that call)
 HeldW(g) == {m \in Mutexes : lock[m].w = g}
@@ -110,7 +112,7 @@ Start(g) == /\ pc[g].op = "idle" /\ left[g] > 0
             /\ \E o \in Alphabet : \E p \in 1..Len(Paths[o]) :
                  /\ pc' = [pc EXCEPT ![g] = [op |-> o, p |-> p, i |-> 1]]
             /\ left' = [left EXCEPT ![g] = @ - 1]
-            /\ UNCHANGED <<mem, snap, lock, cand, accessed, lost, badunlock, resets, appended>>
+            /\ UNCHANGED <<mem, snap, lock, cand, accessed, lost, badunlock, resets, appended, early>>
 
 Step(g) ==
   /\ pc[g].op # "idle"
@@ -118,8 +120,12 @@ Step(g) ==
      IF pc[g].i > Len(path)
      THEN /\ pc' = [pc EXCEPT ![g] = [op |-> "idle", p |-> 0, i |-> 0]]
           /\ snap' = [snap EXCEPT ![g] = [v \in Vars |-> << >>]]          \* locals die with the call
-          /\ UNCHANGED <<left, mem, lock, cand, accessed, lost, badunlock, resets, appended>>
+          /\ UNCHANGED <<left, mem, lock, cand, accessed, lost, badunlock, resets, appended, early>>
      ELSE /\ Exec(g, path[pc[g].i])
+          \* "forward" = the user's function is entered (kept only in the paths of the order configuration): the record of
+          \* this very call must already have been appended
+          /\ early' = (early \/ (path[pc[g].i].op = "forward"
+                                  /\ \E j \in (pc[g].i + 1)..Len(path) : path[j].op = "write" /\ path[j].kind = "append"))
           /\ pc' = [pc EXCEPT ![g].i = @ + 1]
           /\ UNCHANGED left
 
@@ -148,6 +154,9 @@ NoLostOrDuplicatedRecord ==
 \* each record is the identity (= the argument tuple) of exactly one call
 RecordIsOneCallsArgs == \A v \in Vars : \A i \in 1..Len(mem[v]) : mem[v][i] \in (Gs \X (1..K))
 \* (deadlock freedom: TLC's deadlock check; Terminated is the only stuttering allowed)
+\* the call is recorded BEFORE the user's function is entered: a goroutine that learns from the function that it is
+\* running already finds the call in MCalls(), and a function that panics or never returns does not lose the call
+RecordedBeforeFuncEntered == ~early
 EveryOpCompletes == <>[]AllDone
 Symm == Permutations(Gs)
 =============================================================================
